@@ -138,6 +138,9 @@ func (w *world) build() error {
 	w.limitN = []int{0, 1, 2}[s.T.Choose(st, 3)]
 	w.family = 1 + s.T.Choose(st, 2)
 	faultNum := []int{0, 2, 4, 8}[s.T.Choose(st, 4)]
+	if w.a.Prop == "C16" {
+		faultNum = 8
+	}
 	w.tgts = map[string]*actors.ScriptedTarget{}
 	w.plans = map[string][]*actors.StagePlan{}
 	w.cplans = map[string][]*actors.CheckPlan{}
@@ -354,6 +357,7 @@ func (w *world) runClient(c *client) {
 		hello = "LHLO client.example"
 	}
 	c.helo = cl.Cmd(hello)
+	stale := 0 // recipients of transactions abandoned by a repeated LHLO
 	for _, tx := range c.txs {
 		mail := "MAIL FROM:<" + tx.From + ">"
 		if tx.UTF8 {
@@ -373,6 +377,7 @@ func (w *world) runClient(c *client) {
 		switch tx.Ending {
 		case endRset:
 			cl.Cmd("RSET")
+			stale = 0
 			tx.Done = true
 			continue
 		case endDisconnect:
@@ -391,6 +396,13 @@ func (w *world) runClient(c *client) {
 			// a second EHLO/LHLO resets the protocol state (RFC 5321 4.1.4)
 			s.Stat("client_ehlo_mid_transaction")
 			cl.Cmd(hello)
+			if w.lmtp {
+				for _, rr := range tx.RcptReplies {
+					if rr.OK() {
+						stale++
+					}
+				}
+			}
 			tx.Done = true
 			continue
 		}
@@ -402,6 +414,7 @@ func (w *world) runClient(c *client) {
 			tx.Done = true
 			// the transaction stays open on the server; reset it
 			cl.Cmd("RSET")
+			stale = 0
 			continue
 		}
 		if tx.Ending == endDisconnectMidData {
@@ -441,7 +454,11 @@ func (w *world) runClient(c *client) {
 				}
 			}
 			got := map[string]actors.Reply{}
-			for len(got) < len(accepted) && len(tx.Foreign) < 8 {
+			// go-smtp answers once per entry of its recipient list, which
+			// still contains the recipients of a transaction abandoned by a
+			// repeated LHLO (see known findings); read that many replies so
+			// that the client stays in step with the server
+			for k := 0; k < len(accepted)+stale; k++ {
 				fr := cl.ReadReply()
 				if fr.Err != "" {
 					tx.Final = append(tx.Final, fr)
@@ -456,14 +473,13 @@ func (w *world) runClient(c *client) {
 						}
 					}
 				}
-				if contains(accepted, addr) {
-					if _, dup := got[addr]; !dup {
-						got[addr] = fr
-						continue
-					}
+				if _, dup := got[addr]; contains(accepted, addr) && !dup && k >= stale {
+					got[addr] = fr
+					continue
 				}
 				tx.Foreign = append(tx.Foreign, fr)
 			}
+			stale = 0
 			for _, r := range accepted {
 				tx.Final = append(tx.Final, got[r])
 			}
@@ -526,11 +542,17 @@ func Run(s *simrt.Sim, a *harness.Args, r *harness.Result) {
 			s.Violate(a.Prop+"/panic/"+p.Func, "task %s panicked: %s", p.Task, p.Value)
 		}
 	}
-	if len(s.Violations()) == 0 {
-		w.oracleC03()
-	}
-	if len(s.Violations()) == 0 && w.limitN > 0 {
-		w.oracleLimits()
+	if a.Prop == "C16" {
+		if len(s.Violations()) == 0 {
+			w.oracleC16()
+		}
+	} else {
+		if len(s.Violations()) == 0 {
+			w.oracleC03()
+		}
+		if len(s.Violations()) == 0 && w.limitN > 0 {
+			w.oracleLimits()
+		}
 	}
 	st := s.Stats()
 	nf := 0
@@ -638,6 +660,9 @@ func (w *world) oracleC03() {
 					}
 				}
 				s.Violate("C03/lmtp-reply-for-foreign-recipient/"+sig, "transaction %s got %d LMTP replies for recipients it never named, first: %s", tx.Marker, len(tx.Foreign), tx.Foreign[0].String())
+				// replies can no longer be attributed to this transaction's
+				// recipients with certainty
+				continue
 			}
 			if !tx.SentBody || len(tx.Final) == 0 {
 				// never answered: nothing may have been committed unless the
@@ -739,6 +764,54 @@ func contains(xs []string, x string) bool {
 		}
 	}
 	return false
+}
+
+// oracleC16: every reply the clients read is coherent.
+func (w *world) oracleC16() {
+	s := w.s
+	check := func(stage string, utf8 bool, r actors.Reply) {
+		if r.Err != "" || r.Code < 400 {
+			return
+		}
+		text := strings.Join(r.Lines, "\n")
+		if r.Enh == "" {
+			s.Violate("C16/class-mismatch/"+stage+"/no-enhanced-code", "%s reply without enhanced status code: %s", stage, r.String())
+		} else if r.Enh[0] != byte('0'+r.Code/100) {
+			s.Violate("C16/class-mismatch/"+stage, "%s reply with basic code %d and enhanced code %s: %s", stage, r.Code, r.Enh, r.String())
+		}
+		if strings.Contains(text, actors.SecretMarker) {
+			s.Violate("C16/detail-disclosed/"+stage, "%s reply discloses the text of an internal error: %s", stage, r.String())
+		}
+		if strings.Contains(text, "tempfail") && r.Code/100 != 4 {
+			s.Violate("C16/retry-class-mismatch/"+stage, "a temporary failure was answered %d: %s", r.Code, r.String())
+		}
+		if strings.Contains(text, "permfail") && r.Code/100 != 5 {
+			s.Violate("C16/retry-class-mismatch/"+stage, "a permanent failure was answered %d: %s", r.Code, r.String())
+		}
+		if !utf8 {
+			for _, ch := range text {
+				if ch >= 0x80 {
+					s.Violate("C16/non-ascii-reply/"+stage, "reply to a client that did not ask for SMTPUTF8 contains U+%04X: %q", ch, text)
+					break
+				}
+			}
+		}
+	}
+	for _, c := range w.clients {
+		for _, tx := range c.txs {
+			check("MAIL", tx.UTF8, tx.MailReply)
+			for _, rr := range tx.RcptReplies {
+				check("RCPT", tx.UTF8, rr)
+			}
+			check("DATA", tx.UTF8, tx.DataReply)
+			for _, f := range tx.Final {
+				check("DATA", tx.UTF8, f)
+			}
+			for _, f := range tx.Foreign {
+				check("DATA", tx.UTF8, f)
+			}
+		}
+	}
 }
 
 // oracleLimits: after all sessions ended every permit of the endpoint's
